@@ -18,8 +18,17 @@
                        signature only if it is garbage, made with its own key k2, or copied from
                        a published packet
      Offer(c)          one of the four public constructors is applied to the offered bytes:
-                       from_bytes, from_relay_payload (key given as a PublicKey),
-                       from_bytes_unchecked, from_parts_unchecked
+                       from_bytes, from_relay_payload (key given as a PublicKey; the bare relay
+                       payload `<sig><ts><dns>` of the offered packet), from_bytes_unchecked,
+                       from_parts_unchecked
+     OfferRelayFull(k) from_relay_payload(k, payload) where the payload is the *complete* wire
+                       encoding `<key'><sig><ts><dns>` of the offered packet (a malicious or
+                       confused relay answering a lookup for k, or a PUT to /pkarr/<k>, with a
+                       whole packet — possibly one validly signed by another key k').  The code
+                       prepends k: every field is read 32 bytes off, nothing verifies (symbolic
+                       assumption), the call fails.  LenientRelay = TRUE is the deviating design
+                       "a payload that verifies as a complete packet is returned as it is", which
+                       does not bind the result to k (refuted on RelayBoundToKey).
      InspectAll        every accessor / Display / Debug is applied to the accepted value
    The constructors follow the code's checks in order (length, key, signature, DNS parse; the
    unchecked ones skip key and signature).  UncheckedValidatesKey = FALSE is the code as
@@ -29,7 +38,8 @@
    property requires (every obtainable value is safe to inspect).                            *)
 EXTENDS Naturals, FiniteSets, Sequences, TLC, Json
 
-CONSTANTS UncheckedValidatesKey,   \* TRUE: required design; FALSE: code as written
+CONSTANTS UncheckedValidatesKey,   \* TRUE: required design; FALSE: code before the fix
+          LenientRelay,            \* FALSE: code / required design; TRUE: complete packets accepted as relay payload
           MaxPublish               \* number of packets the honest endpoint publishes
 
 Keys  == {"k1", "k2", "kx", "weak", "np"}
@@ -54,12 +64,15 @@ Authentic(p) == p.len = "ok" /\ IsPoint(p.key) /\ Verifies(p) /\ Parses(p.pl)
 
 VARIABLES signed,   \* {[ts, pl]} published by the honest endpoint k1
           cur,      \* the packet offered
-          res,      \* [ctor, out]: result of the constructor ("none" before the call)
+          res,      \* [ctor, out, rk, form, val]: constructor, its result ("none" before the call); for
+                    \* from_relay_payload the requested key and the payload form ("bare" | "full");
+                    \* val = the value returned (NoPacket if none)
           insp      \* accessor -> "ok" | "panic" | "-" (not inspected)
 vars == <<signed, cur, res, insp>>
 
 NotInspected == [a \in Accessors |-> "-"]
-Init == signed = {} /\ cur = NoPacket /\ res = [ctor |-> "none", out |-> "none"] /\ insp = NotInspected
+NoRes == [ctor |-> "none", out |-> "none", rk |-> "-", form |-> "-", val |-> NoPacket]
+Init == signed = {} /\ cur = NoPacket /\ res = NoRes /\ insp = NotInspected
 
 Publish(ts, pl) == /\ cur = NoPacket /\ Cardinality(signed) < MaxPublish
                    /\ signed' = signed \cup {[ts |-> ts, pl |-> pl]}
@@ -85,39 +98,62 @@ OutOf(c, p) == IF c \in Checked THEN CheckedOut(p) ELSE UncheckedOut(p)
 Applicable(c, p) == c = "from_relay_payload" => IsPoint(p.key)
 
 Offer(c) == /\ cur # NoPacket /\ res.ctor = "none" /\ Applicable(c, cur)
-            /\ res' = [ctor |-> c, out |-> OutOf(c, cur)]
+            /\ res' = [ctor |-> c, out |-> OutOf(c, cur),
+                       rk |-> IF c = "from_relay_payload" THEN cur.key ELSE "-",
+                       form |-> IF c = "from_relay_payload" THEN "bare" ELSE "-",
+                       val |-> IF OutOf(c, cur) = "ok" THEN cur ELSE NoPacket]
             /\ UNCHANGED <<signed, cur, insp>>
+
+\* from_relay_payload(k, <complete packet>): from_bytes(k ++ key' ++ sig ++ ts ++ dns)
+RelayKeys == {"k1", "k2"}
+LenientHit(p) == LenientRelay /\ p.len # "short" /\ CheckedOut(p) = "ok"
+RelayFullOut(p) == IF LenientHit(p) THEN "ok" ELSE IF p.len = "long" THEN "too_large" ELSE "signature"
+OfferRelayFull(k) == /\ cur # NoPacket /\ res.ctor = "none"
+                     /\ res' = [ctor |-> "from_relay_payload", out |-> RelayFullOut(cur), rk |-> k, form |-> "full",
+                                val |-> IF LenientHit(cur) THEN cur ELSE NoPacket]
+                     /\ UNCHANGED <<signed, cur, insp>>
 
 OutcomeOf(a, p) == IF a \in KeyAccessors /\ ~IsPoint(p.key) THEN "panic" ELSE "ok"
 InspectAll == /\ res.out = "ok" /\ insp = NotInspected
-              /\ insp' = [a \in Accessors |-> OutcomeOf(a, cur)]
+              /\ insp' = [a \in Accessors |-> OutcomeOf(a, res.val)]
               /\ UNCHANGED <<signed, cur, res>>
 
 PublishSome == \E ts \in {"t1", "t2"} : \E pl \in {"p1", "p2"} : Publish(ts, pl)
 ComposeSome == \E p \in Packets : Compose(p)
 OfferSome   == \E c \in Ctors : Offer(c)
-Next == PublishSome \/ ComposeSome \/ OfferSome \/ InspectAll
+OfferFullSome == \E k \in RelayKeys : OfferRelayFull(k)
+Next == PublishSome \/ ComposeSome \/ OfferSome \/ OfferFullSome \/ InspectAll
 Spec == Init /\ [][Next]_vars
 
 ----------------------------------------------------------------------------
 (* C32 *)
 \* the checked constructors accept exactly the authentic packets
-AcceptIffAuthentic == res.ctor \in Checked => ((res.out = "ok") <=> Authentic(cur))
+\* (the offered bytes are the packet `cur`, except for a complete packet offered as a relay payload)
+AcceptIffAuthentic == res.ctor \in Checked /\ res.form # "full" => ((res.out = "ok") <=> Authentic(cur))
 \* what is accepted under the honest key was published by the honest endpoint
-Unforgeable == res.ctor \in Checked /\ res.out = "ok" /\ cur.key = "k1" => [ts |-> cur.ts, pl |-> cur.pl] \in signed
+Unforgeable == res.ctor \in Checked /\ res.out = "ok" /\ res.val.key = "k1" => [ts |-> res.val.ts, pl |-> res.val.pl] \in signed
+\* a relay payload is accepted for the requested key only: the returned packet carries that key and
+\* is authentic under it, whatever form the payload had
+RelayBoundToKey == res.ctor = "from_relay_payload" /\ res.out = "ok" => res.val.key = res.rk /\ Authentic(res.val)
+\* the documented payload format is `<sig><ts><dns>`: a complete packet is not a relay payload
+FullPacketIsNoRelayPayload == res.form = "full" => res.out # "ok"
 \* any modification of an accepted packet (one field, to any other value) is rejected
 SingleMutants(p) == {[p EXCEPT !.len = v] : v \in Lens \ {p.len}} \cup {[p EXCEPT !.key = v] : v \in Keys \ {p.key}}
                     \cup {[p EXCEPT !.sig = v] : v \in SigTerms \ {p.sig}} \cup {[p EXCEPT !.ts = v] : v \in Tss \ {p.ts}}
                     \cup {[p EXCEPT !.pl = v] : v \in Pls \ {p.pl}}
-ModificationRejected == res.ctor \in Checked /\ res.out = "ok" => \A q \in SingleMutants(cur) : CheckedOut(q) # "ok"
+ModificationRejected == res.ctor \in Checked /\ res.form # "full" /\ res.out = "ok" => \A q \in SingleMutants(cur) : CheckedOut(q) # "ok"
 \* every value any constructor returns can be inspected without panicking
 TotalAccessors == \A a \in Accessors : insp[a] # "panic"
 \* the unchecked constructors still validate length and DNS payload (their documentation)
 UncheckedStillValidates == res.ctor \in Ctors \ Checked /\ res.out = "ok" => cur.len = "ok" /\ Parses(cur.pl)
 
 \* decision table for the binding: one line per offered packet and constructor
+\* `judge`: whether acceptance itself is compared.  Read weakly, the property leaves open whether a complete,
+\* authentic packet of the requested key itself may be taken as its relay payload; the result is still
+\* judged by RelayBoundToKey (returned key = requested key, authentic under it).
 Emit == res.ctor # "none" =>
-          PrintT(<<"REPLAY", ToJson([pkt |-> cur, ctor |-> res.ctor, out |-> res.out,
+          PrintT(<<"REPLAY", ToJson([pkt |-> cur, ctor |-> res.ctor, out |-> res.out, rk |-> res.rk, form |-> res.form,
                                      point |-> IsPoint(cur.key), verifies |-> Verifies(cur), parses |-> Parses(cur.pl),
-                                     checked |-> res.ctor \in Checked])>>)
+                                     checked |-> res.ctor \in Checked,
+                                     judge |-> ~(res.form = "full" /\ cur.key = res.rk /\ Authentic(cur))])>>)
 =============================================================================
